@@ -7,6 +7,8 @@ change, run the quick check of the property it breaks (VERIF_SRC pointing at the
 /verif/seeded/RESULTS.json + RESULTS.md.  Nothing is ever applied to /repo itself.
 
 usage: tools/run_seeds.py [name ...]   (default: all)   [--rebase] rewrites patch.diff when needed
+       [--suite] also runs the repository's test-suite on the scratch copy (new failures = failures beyond the
+       baseline's libsndfile ones)   [--jobs n] seeds in parallel (default 4; each quick check itself uses 16 processes)
 """
 import json
 import os
@@ -24,7 +26,40 @@ def run(cmd, **kw):
     return subprocess.run(cmd, capture_output=True, text=True, **kw)
 
 
-def one(name, rebase):
+_BASELINE = {}
+
+
+def baseline_fails():
+    """failures of the suite on an UNCHANGED scratch copy laid out like the patched ones (src + tests only: the libsndfile
+    fixtures fail everywhere, and one test reads a file from outside tests/)"""
+    if "fails" not in _BASELINE:
+        tmp = tempfile.mkdtemp(prefix="sv-base.")
+        try:
+            for sub in ("src", "tests"):
+                shutil.copytree(os.path.join("/repo", sub), os.path.join(tmp, sub))
+            fails = set()
+            for _ in range(2):  # twice: a load-dependent flaky test may fail in either run
+                r = run(["/venv/bin/python", "-m", "pytest", "-q", "-p", "no:cacheprovider", "-n", "4", "tests"], env=dict(os.environ, PYTHONPATH=os.path.join(tmp, "src")), cwd=tmp)
+                fails |= {l.split()[1] for l in r.stdout.splitlines() if l.startswith(("FAILED", "ERROR")) and len(l.split()) > 1}
+            _BASELINE["fails"] = fails
+        finally:
+            shutil.rmtree(tmp, ignore_errors=True)
+    return _BASELINE["fails"]
+
+
+def suite(tmp):
+    """test-suite of the scratch copy -> (summary line, failures that the unchanged tree does not have)"""
+    r = run(["/venv/bin/python", "-m", "pytest", "-q", "-p", "no:cacheprovider", "-n", "4", "tests"], env=dict(os.environ, PYTHONPATH=os.path.join(tmp, "src")), cwd=tmp)
+    lines = r.stdout.strip().splitlines()
+    fails = sorted({l.split()[1] for l in lines if l.startswith(("FAILED", "ERROR")) and len(l.split()) > 1})
+    new = [f for f in fails if f not in baseline_fails()]
+    if new:  # re-run the new failures once on their own: tests/test_audio has a load-dependent flaky test
+        r2 = run(["/venv/bin/python", "-m", "pytest", "-q", "-p", "no:cacheprovider"] + new, env=dict(os.environ, PYTHONPATH=os.path.join(tmp, "src")), cwd=tmp)
+        new = sorted({l.split()[1] for l in r2.stdout.splitlines() if l.startswith(("FAILED", "ERROR")) and len(l.split()) > 1} - baseline_fails())
+    return (lines[-1] if lines else r.stderr[-200:]), new
+
+
+def one(name, rebase, with_suite=False):
     d = os.path.join(SEEDED, name)
     meta = json.load(open(os.path.join(d, "meta.json")))
     prop = meta.get("breaks_property") or meta.get("property")
@@ -60,6 +95,8 @@ def one(name, rebase):
         r1 = run(["/venv/bin/python", demo], env=env_mut, cwd=tmp)
         r0 = run(["/venv/bin/python", demo], env=env_ok, cwd=tmp)
         res["demo_with_change"], res["demo_unchanged"] = r1.returncode, r0.returncode
+        if with_suite:
+            res["suite"], res["suite_new_failures"] = suite(tmp)
         t0 = time.time()
         r = run([os.path.join(HERE, "vcheck"), prop, "--tier", "quick", "--no-evidence"], env=dict(os.environ, VERIF_SRC=os.path.join(tmp, "src")))
         res["check_exit"] = r.returncode
@@ -73,22 +110,39 @@ def one(name, rebase):
 
 
 def main():
-    args = [a for a in sys.argv[1:] if not a.startswith("--")]
-    rebase = "--rebase" in sys.argv
+    argv = sys.argv[1:]
+    jobs = 4
+    if "--jobs" in argv:
+        i = argv.index("--jobs")
+        jobs = int(argv[i + 1])
+        del argv[i : i + 2]
+    args = [a for a in argv if not a.startswith("--")]
+    rebase = "--rebase" in argv
+    with_suite = "--suite" in argv
     names = args or sorted(n for n in os.listdir(SEEDED) if os.path.isdir(os.path.join(SEEDED, n)))
     results = []
-    for n in names:
-        r = one(n, rebase)
+    from concurrent.futures import ThreadPoolExecutor
+
+    if with_suite:
+        print("baseline failures on an unchanged scratch copy:", sorted(baseline_fails()))
+
+    with ThreadPoolExecutor(jobs) as ex:
+        it = ex.map(lambda n: one(n, rebase, with_suite), names)
+        results_iter = list(zip(names, it))
+    for n, r in results_iter:
         results.append(r)
+        if with_suite:
+            print(f"   suite: {r.get('suite')} new failures: {r.get('suite_new_failures')}")
         print(f"{n}: patch={r.get('patch')} demo(with,without)=({r.get('demo_with_change')},{r.get('demo_unchanged')}) check_exit={r.get('check_exit')} {r.get('check_seconds')}s {r.get('first_failure', '')[:120]}")
     if not args:
         head = subprocess.run(["git", "-C", "/repo", "rev-parse", "--short", "HEAD"], capture_output=True, text=True).stdout.strip()
         json.dump({"repo_head": head, "results": results}, open(os.path.join(SEEDED, "RESULTS.json"), "w"), indent=1)
         with open(os.path.join(SEEDED, "RESULTS.md"), "w") as fh:
             fh.write(f"# Seeded changes re-run against /repo @ {head} (quick tier, VERIF_SEED default)\n\n")
-            fh.write("| seed | property | patch | demo fails with / passes without | detected by quick check | s | first failure |\n|---|---|---|---|---|---|---|\n")
+            fh.write("| seed | property | patch | demo fails with / passes without | suite: new failures with the change | detected by quick check | s | first failure |\n|---|---|---|---|---|---|---|---|\n")
             for r in results:
-                fh.write(f"| {r['name']} | {r['property']} | {r.get('patch')} | {r.get('demo_with_change') != 0} / {r.get('demo_unchanged') == 0} | {'YES' if r.get('detected') else 'NO'} | {r.get('check_seconds')} | {r.get('first_failure', '').replace('|', '/')[:160]} |\n")
+                sn = "not run" if "suite_new_failures" not in r else ("none" if not r["suite_new_failures"] else "; ".join(r["suite_new_failures"]))
+                fh.write(f"| {r['name']} | {r['property']} | {r.get('patch')} | {r.get('demo_with_change') != 0} / {r.get('demo_unchanged') == 0} | {sn} | {'YES' if r.get('detected') else 'NO'} | {r.get('check_seconds')} | {r.get('first_failure', '').replace('|', '/')[:160]} |\n")
         nd = sum(1 for r in results if r.get("detected"))
         print(f"{nd}/{len(results)} detected")
 
